@@ -133,6 +133,8 @@ def _sweep(shard, seed, tier, col, aes, R, np):
         configs.append(('N1', blocks[5:6], keys[7], 'uint8', 'uint8'))
     elif shp == '1bKk':
         configs.append(('b256-allkeys', blocks[256], keys, 'uint8', 'uint8'))
+        configs.append(('b9-as-many-keys-as-round-keys', blocks[9], keys[:nr + 1], 'uint8', 'uint8'))          # key counts that coincide with another axis length (round keys, state bytes)
+        configs.append(('b9-4keys', blocks[9], keys[:4], 'uint8', 'uint8'))
         configs.append(('b9-allkeys-u16', blocks[9], keys, 'uint16', 'int32'))
         kk = np.tile(keys[8], (256, 1)); kk[:, nk - 1] = np.arange(256)      # last key byte through all values
         configs.append(('b3-lastbyte-keys', blocks[3], kk, 'uint8', 'uint8'))
@@ -141,6 +143,9 @@ def _sweep(shard, seed, tier, col, aes, R, np):
         kk = np.vstack([keys] * 4)[:n]
         kk = kk.copy(); kk[:, 0] = np.arange(n) * 4 + 1
         configs.append(('paired', blocks[:n], kk, 'uint8', 'uint8'))
+        configs.append(('paired-as-many-as-round-keys', blocks[:nr + 1], kk[:nr + 1], 'uint8', 'uint8'))
+        configs.append(('paired-16', blocks[:16], kk[:16], 'uint8', 'uint8'))
+        configs.append(('paired-nk', blocks[:nk], kk[:nk], 'uint8', 'uint8'))
         configs.append(('paired-i64', blocks[100:100 + n], kk, 'int64', 'uint8'))
     slots = [(r, s) for r in range(nr + 1) for s in range(4)] + [None]
     for label, b, k, dtb, dtk in configs:
